@@ -539,7 +539,12 @@ pub fn drive(spec: &CheckSpec, tier: &str) -> i32 {
 		"wall_s": wall,
 		"violations": new_violations,
 	});
-	let ev_dir = Path::new(VERIF_DIR).join("evidence");
+	// campaign tools (determinism, other seeds, thorough passes) keep their evidence apart from the
+	// committed default-seed evidence
+	let ev_dir = match std::env::var("VERIF_EVIDENCE_DIR") {
+		Ok(d) if !d.is_empty() => std::path::PathBuf::from(d),
+		_ => Path::new(VERIF_DIR).join("evidence"),
+	};
 	let _ = std::fs::create_dir_all(&ev_dir);
 	let ev_path = ev_dir.join(format!("{}.json", spec.property));
 	std::fs::write(&ev_path, serde_json::to_string_pretty(&evidence).unwrap()).expect("write evidence");
